@@ -13,7 +13,9 @@
 (*                ppaused  (proto Partition.Paused: what FetchMetadata     *)
 (*                          reports and what a snapshot carries),          *)
 (*                ro       (proto Partition.Readonly: reported/snapshot),  *)
-(*                roeff    (commit log read-only flag: what publishes see)]*)
+(*                roeff    (commit log read-only flag: what publishes see), *)
+(*                rec      (partition.recovered: added during recovery and *)
+(*                          not started yet)]                               *)
 (*            tomb = marked for deletion during replay                     *)
 (*   groups   group id -> group value of GroupOps (or NoGroup)             *)
 (*   lastPub  activity manager: last published Raft index                  *)
@@ -48,15 +50,16 @@ NoSnap == [has |-> FALSE]
 Seq2Set(q) == {q[i] : i \in DOMAIN q}
 Perms(S) == {q \in [1..Cardinality(S) -> S] : \A i, j \in DOMAIN q : i # j => q[i] # q[j]}
 
-NewPart(R, ldr, e) == [replicas |-> R, isr |-> R, leader |-> ldr, lepoch |-> e, epoch |-> e,
-                       paused |-> FALSE, ppaused |-> FALSE, ro |-> FALSE, roeff |-> FALSE]
+NewPart(R, ldr, e, rec) == [replicas |-> R, isr |-> R, leader |-> ldr, lepoch |-> e, epoch |-> e,
+                            paused |-> FALSE, ppaused |-> FALSE, ro |-> FALSE, roeff |-> FALSE, rec |-> rec]
 Proto(p) == [replicas |-> p.replicas, isr |-> p.isr, leader |-> p.leader, lepoch |-> p.lepoch,
              epoch |-> p.epoch, ppaused |-> p.ppaused, ro |-> p.ro]
 ProtoParts(ps) == [i \in DOMAIN ps |-> Proto(ps[i])]
 \* addPartition from a proto: re-paused when the proto says so; a NEW commit
 \* log is opened and made read-only when the proto says so
 FromProto(q) == [replicas |-> q.replicas, isr |-> q.isr, leader |-> q.leader, lepoch |-> q.lepoch,
-                 epoch |-> q.epoch, paused |-> q.ppaused, ppaused |-> q.ppaused, ro |-> q.ro, roeff |-> q.ro]
+                 epoch |-> q.epoch, paused |-> q.ppaused, ppaused |-> q.ppaused, ro |-> q.ro, roeff |-> q.ro,
+                 rec |-> TRUE]
 
 \* getStreamPartitions: tombstoned streams are still in the store
 PC(ss) == [s \in DOMAIN ss |-> Len(ss[s].parts)]
@@ -93,7 +96,7 @@ Detach(r, s) == IF r.has /\ s \in r.live
 
 ApplyCreate(o, e, rec) ==
   LET fresh(ss, gg) ==
-        [St EXCEPT !.streams = Put(ss, o.s, [tomb |-> FALSE, parts |-> [i \in 1..o.n |-> NewPart(o.R, o.ldr, e)]]),
+        [St EXCEPT !.streams = Put(ss, o.s, [tomb |-> FALSE, parts |-> [i \in 1..o.n |-> NewPart(o.R, o.ldr, e, rec)]]),
                    !.groups = gg,
                    \* a live create is followed by data written under this incarnation
                    !.disk = IF rec THEN WithDirs(disk, o.s, o.n) ELSE Put(disk, o.s, [i \in 1..o.n |-> e])]
@@ -119,12 +122,12 @@ ApplyPause(o) ==
 \* ResumePartition: a paused partition is REPLACED by a new partition object
 \* built from the same proto (new commit log, which takes the proto's
 \* read-only flag); the proto's Paused flag is cleared
-ApplyResume(o) ==
+ApplyResume(o, rec) ==
   IF o.s \notin DOMAIN streams THEN Err("stream_not_found")
   ELSE IF ~({p + 1 : p \in o.pids} \subseteq DOMAIN streams[o.s].parts) THEN Err("partition_not_found")
   ELSE [St EXCEPT !.streams[o.s].parts = [i \in DOMAIN @ |->
           IF i - 1 \in o.pids /\ @[i].paused
-          THEN [@[i] EXCEPT !.paused = FALSE, !.ppaused = FALSE, !.roeff = streams[o.s].parts[i].ro] ELSE @[i]]]
+          THEN [@[i] EXCEPT !.paused = FALSE, !.ppaused = FALSE, !.roeff = streams[o.s].parts[i].ro, !.rec = rec] ELSE @[i]]]
 
 ApplyReadonly(o) ==
   IF o.s \notin DOMAIN streams THEN Err("stream_not_found")
@@ -174,7 +177,7 @@ ApplyOp(o, e, rec) ==
   CASE o.op = "CreateStream" -> ApplyCreate(o, e, rec)
     [] o.op = "DeleteStream" -> ApplyDelete(o, e, rec)
     [] o.op = "Pause" -> ApplyPause(o)
-    [] o.op = "Resume" -> ApplyResume(o)
+    [] o.op = "Resume" -> ApplyResume(o, rec)
     [] o.op = "SetReadonly" -> ApplyReadonly(o)
     [] o.op = "ShrinkISR" -> ApplyISR(o, e, FALSE)
     [] o.op = "ExpandISR" -> ApplyISR(o, e, TRUE)
@@ -279,7 +282,10 @@ Tombs == {s \in DOMAIN streams : streams[s].tomb}
 \* Go map: any order (ord = permutation of Tombs, per group)
 DoFinish(ord) ==
   /\ mode = "replay" /\ nrep > 0
-  /\ LET ss == [s \in DOMAIN streams \ Tombs |-> streams[s]] IN
+  /\ LET ss == [s \in DOMAIN streams \ Tombs |->
+                  \* partition.StartRecovered: a paused partition stays in recovery mode (it is
+                  \* replaced when it is resumed)
+                  [streams[s] EXCEPT !.parts = [i \in DOMAIN @ |-> IF @[i].paused THEN @[i] ELSE [@[i] EXCEPT !.rec = FALSE]]]] IN
      /\ streams' = ss
      /\ disk' = [s \in DOMAIN disk \ Tombs |-> disk[s]]
      /\ groups' = [g \in GroupIds |-> IF groups[g].exists THEN GAnnounceSeq(groups[g], ord[g], applied, PC(ss)) ELSE groups[g]]
@@ -288,7 +294,8 @@ DoFinish(ord) ==
   /\ UNCHANGED <<lastPub, applied, nrep, sref, snap, pre>>
 
 \* nothing was replayed (the snapshot covers the whole log): Server.Apply never
-\* calls finishedRecovery; the next committed operation is applied live
+\* calls finishedRecovery; the next committed operation is applied live and the
+\* restored partitions and groups stay in recovery mode
 DoGoLive ==
   /\ mode = "replay" /\ nrep = 0
   /\ mode' = "live"
@@ -302,6 +309,11 @@ DoGoLive ==
 Meta(p) == [replicas |-> p.replicas, isr |-> p.isr, leader |-> p.leader, lepoch |-> p.lepoch,
             epoch |-> p.epoch, paused |-> p.paused, ppaused |-> p.ppaused, ro |-> p.ro]
 MetaOf(ss) == [s \in DOMAIN ss |-> [tomb |-> ss[s].tomb, parts |-> [i \in DOMAIN ss[s].parts |-> Meta(ss[s].parts[i])]]]
+\* after recovery every partition that is not paused has been started
+RS_Started == (mode' = "live" /\ mode = "replay") =>
+   \A s \in DOMAIN streams' : \A i \in DOMAIN streams'[s].parts : streams'[s].parts[i].paused \/ ~streams'[s].parts[i].rec
+\* ... which finishedRecovery does whenever it is called
+RS_StartedByFinish == nrep > 0 => RS_Started
 RoEffOf(ss) == [s \in DOMAIN ss |-> [i \in DOMAIN ss[s].parts |-> ss[s].parts[i].roeff]]
 
 BackLive == mode' = "live" /\ mode = "replay"
